@@ -171,5 +171,17 @@ CHECKS.update({
   text="Generated list/value/lookahead parsers in 8 option sets (cancellableFetch, tokenStream, optimizeTables) on inputs of 1,100-1,600 tokens and the shipped js/tm/test parsers: the context is cancelled synchronously when the progress clock (tokens delivered, counted by a lexer action; listener calls for shipped parsers) reaches s, for EVERY s in 0..end+3 (every 8th plus poll boundaries +-2 for shipped parsers in quick): the result is ctx.Err() with an event prefix of the uncancelled run, or exactly the uncancelled result and events; at most 0x200+1+(lookahead invocations) further tokens are delivered after cancellation (observed maximum exactly 512).",
   note="Event lists are compared through a 64-bit hash chain; shipped lexers cannot be hooked, so their bound is measured through listener positions with +64 slack.",
   design="§5.C29"),
+ "C17": dict(
+  category="exploration",
+  technique="pairwise-complete (quick) / exhaustive (thorough) exploration of the option lattice over 38 feature grammars; generate in crash-containing workers, go build of every distinct output",
+  text="38 feature grammars (one per feature: mid-rule actions, typed values, (class) rules, start conditions, backtracking, error recovery, lookaheads, recursive lookaheads, lalr(2), templates, sets, %inject, %flag, %interface, extraTypes, fileNode, odd symbol names, state markers, no-eoi and multiple inputs ...) x option rows: default, all 12 parser options on, and a deterministic greedy covering array of all legal 2-way interactions of 20 boolean options (632 cases, 28,348 pairs) in quick; every subset of the 12 parser options per grammar in thorough (141,792 cases, built in order of distance from the corners). Each case is compiled and generated in a worker subprocess (log.Fatal named by caller), outputs are de-duplicated by content and every distinct output is built with go build ./... in a scratch module.",
+  note="'All accepted grammars' is approximated by feature-minimal grammars x option subsets; interactions of >=3 options with a specific feature are reached by the all-on row and the thorough prefix only. Non-boolean options and other targets are not enumerated; nothing is executed.",
+  design="§5.C17"),
+ "C30": dict(
+  category="exploration",
+  technique="bounded exhaustive enumeration of grammars with writeBison; the emitted .y text is read back and compared with the rules and precedence the tables were built from",
+  text="(a) gramenum CFGs x 10-13 %left/%right/%nonassoc blocks x %prec markers (incl. on %empty rules) x input configurations, (b) rule bodies 'tc <shape> td' for every extended-notation shape of depth<=2 over 9 atoms (terminal, nonterminal, set, complement set, mid-rule action, (?= L), (?= !L), state marker) with 7 unary constructors, sequence and nested choice, with/without eventBased and %prec, plus templated forms: a 60-line reader of the generated .y must yield exactly Parser.Rules in order (LHS, RHS symbols incl. extracted mid-rule nonterminals, %prec) and precedence lines equal to Parser.Prec; each terminal declared once. 11,336 cases quick, 188,224 thorough.",
+  note="Action text, %start lines and Bison's own acceptance of the file are not checked.",
+  design="§5.C30"),
 })
 NOT_APPLICABLE_REASON = {}
